@@ -339,8 +339,8 @@ def decTimestamp (bs : Bytes) : Except Err ((Nat × Nat) × Bytes) :=
 /-- Bytes of `bs` consumed when `r` is what is left. -/
 def consumed (bs r : Bytes) : Bytes := bs.take (bs.length - r.length)
 
-/-- `PrimaryBlock.UnmarshalCbor`. The CRC is computed over the bytes as received (tee reader). -/
-def decPrimary (strict : Bool) (bs : Bytes) : Except Err (Primary × Bytes) :=
+/-- The fields of `PrimaryBlock.UnmarshalCbor` up to (not including) the CRC: array length and block. -/
+def decPrimaryFields (strict : Bool) (bs : Bytes) : Except Err ((Nat × Primary) × Bytes) :=
   bindP (decArray bs) fun bl r =>
     if bl < 8 ∨ 11 < bl then .error (.other 42) else
     bindP (decUInt r) fun ver r =>
@@ -357,14 +357,18 @@ def decPrimary (strict : Bool) (bs : Bytes) : Except Err (Primary × Bytes) :=
     bindP (if bl = 10 ∨ bl = 11 then
              bindP (decUInt r) fun off r => bindP (decUInt r) fun tot r => .ok ((off, tot), r)
            else .ok ((0, 0), r)) fun ft r =>
-    let p : Primary := ⟨dtnVersion, flags, ct, dst, src, rpt, ts.1, ts.2, lt, ft.1, ft.2⟩
-    if bl = 9 ∨ bl = 11 then
-      match crcValue ct (consumed bs r) with
+      .ok ((bl, ⟨dtnVersion, flags, ct, dst, src, rpt, ts.1, ts.2, lt, ft.1, ft.2⟩), r)
+
+/-- `PrimaryBlock.UnmarshalCbor`. The CRC is computed over the bytes as received (tee reader). -/
+def decPrimary (strict : Bool) (bs : Bytes) : Except Err (Primary × Bytes) :=
+  bindP (decPrimaryFields strict bs) fun x r =>
+    if x.1 = 9 ∨ x.1 = 11 then
+      match crcValue x.2.crcT (consumed bs r) with
       | .error e => .error e
       | .ok cc =>
         bindP (decBytes r) fun cv r' =>
-          if cc = cv then .ok (p, r') else .error (.other 45)
-    else .ok (p, r)
+          if cc = cv then .ok (x.2, r') else .error (.other 45)
+    else .ok (x.2, r)
 
 /-- Insertion into a Go map: an existing key keeps its place and gets the new value. -/
 def mapInsert (m : EidMap) (k : Eid) (v : Nat) : EidMap :=
@@ -428,32 +432,36 @@ def rawHead (maj : Nat) (bs : Bytes) (k : Nat → Bytes → CanonRes) : CanonRes
   | .error .flagBreak => .brk bs.tail
   | .error e => .err e
 
+/-- The fields of `CanonicalBlock.UnmarshalCbor` between the array head and the CRC, in
+continuation style (`k` receives the block and what is left). -/
+def decCanonFields (cfg : Cfg) (bl : Nat) (r0 : Bytes) (k : Canonical → Bytes → CanonRes) : CanonRes :=
+  rawHead majUInt r0 fun bt r =>
+  rawHead majUInt r fun num r =>
+  rawHead majUInt r fun flags r =>
+  rawHead majUInt r fun ct r =>
+  if cfg.strict && (!crcKnown ct || (decide (bl = 6) != (ct != crcNo))) then .err (.other 51) else
+  match decBytes r with
+  | .error _ => .err (.other 52)
+  | .ok (data, r) =>
+    match decValue cfg bt data with
+    | .error _ => .err (.other 53)
+    | .ok v => k ⟨num, flags, ct, v⟩ r
+
 /-- `CanonicalBlock.UnmarshalCbor`. For a 6-element block the CRC is taken over a re-encoded array
 head followed by the bytes as received. -/
 def decCanon (cfg : Cfg) (bs : Bytes) : CanonRes :=
   rawHead majArray bs fun bl r0 =>
     if bl ≠ 5 ∧ bl ≠ 6 then .err (.other 50) else
-    rawHead majUInt r0 fun bt r =>
-    rawHead majUInt r fun num r =>
-    rawHead majUInt r fun flags r =>
-    rawHead majUInt r fun ct r =>
-    if cfg.strict && (!crcKnown ct || (decide (bl = 6) != (ct != crcNo))) then .err (.other 51) else
-    match decBytes r with
-    | .error _ => .err (.other 52)
-    | .ok (data, r) =>
-      match decValue cfg bt data with
-      | .error _ => .err (.other 53)
-      | .ok v =>
-        let c : Canonical := ⟨num, flags, ct, v⟩
-        if bl = 6 then
-          match crcValue ct (encArray 6 ++ consumed r0 r) with
-          | .error e => .err e
-          | .ok cc =>
-            rawHead majBytes r fun n r =>
-              match readRaw n r with
-              | .error e => .err e
-              | .ok (cv, r') => if cc = cv then .block c r' else .err (.other 54)
-        else .block c r
+    decCanonFields cfg bl r0 fun c r =>
+      if bl = 6 then
+        match crcValue c.crcT (encArray 6 ++ consumed r0 r) with
+        | .error e => .err e
+        | .ok cc =>
+          rawHead majBytes r fun n r =>
+            match readRaw n r with
+            | .error e => .err e
+            | .ok (cv, r') => if cc = cv then .block c r' else .err (.other 54)
+      else .block c r
 
 /-- The block loop of `Bundle.UnmarshalCbor`; every iteration consumes at least one byte. -/
 def decBlocks (cfg : Cfg) : Nat → Bytes → Except Err (List Canonical × Bytes)
